@@ -467,6 +467,54 @@ func c16SeekPool(c *Ctx, l *TLake, name string, desc bool, stride, n int) error 
 	return nil
 }
 
+// c16OrPairs: disjunctions (and a conjunction around them) that keep NON-adjacent key
+// ranges of one object — the shape under which a seek-index scan must not stop at the
+// first excluded entry.
+func c16OrPairs(lits []string) []*c16Pred {
+	var out []*c16Pred
+	cmp := func(op string, kl bool, lit string) *c16Pred {
+		return &c16Pred{Kind: "cmp", Op: op, KeyLeft: kl, Lit: lit}
+	}
+	for i := range lits {
+		for j := i + 1; j < len(lits); j++ {
+			a, b := lits[i], lits[j]
+			out = append(out,
+				&c16Pred{Kind: "or", A: cmp("<=", true, a), B: cmp(">=", true, b)},
+				&c16Pred{Kind: "or", A: cmp("==", true, a), B: cmp("==", false, b)},
+				&c16Pred{Kind: "and", A: &c16Pred{Kind: "or", A: cmp("<", true, a), B: cmp("<", false, b)},
+					B: &c16Pred{Kind: "nonkey", Op: ">=", KeyLeft: true, Lit: "0"}})
+		}
+	}
+	return out
+}
+
+// c16IntSeekPool: one big object per load with many distinct integer keys (and a tail of
+// nulls), so that the seek index has many entries.
+func c16IntSeekPool(c *Ctx, l *TLake, name string, desc bool, stride, n int) error {
+	pool, err := l.CreatePool(name, "k", desc, stride, 0)
+	if err != nil {
+		return err
+	}
+	id := 0
+	for o := 0; o < 2; o++ {
+		var vals []string
+		for v := 0; v < n; v++ {
+			key := fmt.Sprint(c.Rng.Intn(50))
+			if c.Rng.Intn(15) == 0 {
+				key = "null"
+			}
+			vals = append(vals, c16Rec(key, id))
+			id++
+		}
+		if _, err := l.LoadZSON(pool, "main", strings.Join(vals, " ")); err != nil {
+			return err
+		}
+	}
+	return nil
+}
+
+var c16IntLits = []string{"0", "3", "7", "12", "20", "25", "31", "38", "44", "49"}
+
 func c16AllAtoms(c *Ctx, lits []string) []*c16Pred {
 	var out []*c16Pred
 	for _, op := range c16Ops {
@@ -531,7 +579,19 @@ func runC16(c *Ctx) {
 			}
 			preds := append([]*c16Pred{}, atoms...)
 			preds = append(preds, trees[:c.N(40, len(trees)/2)]...)
+			preds = append(preds, c16OrPairs(c16Lits)...)
 			c16Oracle(c, "seek", l, name, desc, preds)
+			// many distinct integer keys, many seek entries
+			iname := fmt.Sprintf("ki%d", i)
+			if err := c16IntSeekPool(c, l, iname, desc, 1+c.Rng.Intn(24), c.N(150, 600)); err != nil {
+				c.Fail("oracle", "C16:seek:setup", err.Error(), nil)
+				continue
+			}
+			ipreds := append(c16AllAtoms(c, c16IntLits), c16OrPairs(c16IntLits)...)
+			for j := 0; j < c.N(40, 400); j++ {
+				ipreds = append(ipreds, c16GenPred(c, 1+c.Rng.Intn(3), c16IntLits))
+			}
+			c16Oracle(c, "seek", l, iname, desc, ipreds)
 		}
 	}
 	if c.Want("delwhere") {
